@@ -171,6 +171,14 @@ def vcfLoop (raw : Bytes) : Nat → Nat → Nat → UPy Nat
     let x ← liftPy (idx raw pos)
     vcfLoop raw k (pos + 1) (acc + x * 256 ^ k)
 
+/-- the branch of `PrimaryHeader.unpack` that reads a VCF count of `n` octets: `raw[7]` for one,
+    `struct.unpack` for two and four, the accumulation loop for every other length (0 included) -/
+def readVcf (raw : Bytes) (n : Nat) : UPy Nat :=
+  if n = 1 then liftPy (idx raw 7)
+  else if n = 2 then liftPy (unpackBE 2 (slice raw 7 9))
+  else if n = 4 then liftPy (unpackBE 4 (slice raw 7 11))
+  else vcfLoop raw n 7 0
+
 /-- `PrimaryHeader.unpack(raw_packet, uslp_version)` -/
 def PrimaryHeader.unpack (raw : Bytes) (uslpVersion : Nat := versionNumber) : UPy PrimaryHeader := do
   if raw.length < 7 then throw (.uslp .invalidLen)
@@ -180,11 +188,7 @@ def PrimaryHeader.unpack (raw : Bytes) (uslpVersion : Nat := versionNumber) : UP
   let r6 ← liftPy (idx raw 6)
   let vcfLen := r6 % 8
   if vcfLen > raw.length - 7 then throw (.uslp .invalidLen)
-  let vcf ←
-    if vcfLen = 1 then liftPy (idx raw 7)
-    else if vcfLen = 2 then liftPy (unpackBE 2 (slice raw 7 9))
-    else if vcfLen = 4 then liftPy (unpackBE 4 (slice raw 7 11))
-    else vcfLoop raw vcfLen 7 0
+  let vcf ← readVcf raw vcfLen
   pure ⟨(scid : Int), sd, (vcid : Int), (mapId : Int), r4 * 256 + r5,
         r6 / 128 % 2 == 1, r6 / 64 % 2 == 1, r6 / 8 % 2 == 1, vcfLen, some vcf⟩
 
